@@ -316,6 +316,12 @@ func c14(c *core.Ctx) {
 	// handler aborts the connection and the caller recovers no code at all
 	c.Borrow("C11", map[string]string{"R7": "R6"}, c11)
 
+	// ---------------------------------------------------------------- R8 (shared)
+	// the code that leaves the handler is the code that is rendered: the conversions on the way (context
+	// translators included, which replace an error only if it IS a context sentinel) keep code, message and
+	// details (C02/R3)
+	c.Borrow("C02", map[string]string{"R3": "R8"}, c02)
+
 }
 
 // parseDocTable extracts "Name: [*] NNN Text" rows from the doc comment.
@@ -1147,6 +1153,39 @@ func c14StatusBeforeBody(c *core.Ctx) {
 		if dec == nil {
 			continue
 		}
+		// once a reply has arrived, the first verdict on the call is the server's: between the round trip and the
+		// status decoder the call does not fail with an error the library makes up itself (a size check on the
+		// announced length, say) — the reply's own code would be replaced. (The error of the metadata decoder — an
+		// undecodable reply — is not made up: it is returned as it is.)
+		{
+			var rt ssa.Instruction
+			core.Instrs(fn, func(in ssa.Instruction) {
+				if isRequestIssue(in) {
+					rt = in
+				}
+			})
+			if rt != nil {
+				reach := core.Walk(core.After(rt), func(x ssa.Instruction) bool { return x == ssa.Instruction(dec) }, nil)
+				bad := token.NoPos
+				for _, r := range core.ErrReturns(fn) {
+					if !reach[r] {
+						continue
+					}
+					for _, l := range expandLeaves(core.ErrLeaves(r.Results[len(r.Results)-1], r), 0) {
+						if call, isCall := core.Strip(l.V).(*ssa.Call); isCall {
+							if _, isCtor := core.StatusCtorCode(call); isCtor {
+								bad = r.Pos()
+							}
+							ci := core.InfoOf(&call.Call)
+							if ci.Is("fmt.Errorf") || ci.Is("errors.New") || errorMaker(ci.Static, 0) {
+								bad = r.Pos()
+							}
+						}
+					}
+				}
+				c.Check(bad == token.NoPos, core.FuncName(fn)+":no-own-verdict-before-the-status-header", dec.Pos(), "no error of the library's own making is returned between the round trip and the status decoder", "after the reply arrived the call can fail with an error constructed by the client itself before the reply's status header is looked at: the caller gets that code instead of the one the server sent")
+			}
+		}
 		core.Instrs(fn, func(in ssa.Instruction) {
 			sel, ok := in.(*ssa.Select)
 			if !ok || !sel.Blocking {
@@ -1160,4 +1199,33 @@ func c14StatusBeforeBody(c *core.Ctx) {
 	if n == 0 {
 		c.Fail("httpgrpc:unary-body-wait", token.NoPos, "ANCHOR-MISSING: no blocking wait for the reply body next to the status decoder in the unary client call")
 	}
+}
+
+// errorMaker: a module function whose every return is an error it constructs
+// itself (a status constructor, fmt.Errorf, errors.New, or another such maker).
+func errorMaker(fn *ssa.Function, depth int) bool {
+	if fn == nil || fn.Blocks == nil || depth > 2 || fn.Signature.Results().Len() != 1 || !core.IsErrorType(fn.Signature.Results().At(0).Type()) {
+		return false
+	}
+	rets := core.Returns(fn)
+	if len(rets) == 0 {
+		return false
+	}
+	for _, r := range rets {
+		for _, l := range core.ErrLeaves(r.Results[0], r) {
+			call, ok := core.Strip(l.V).(*ssa.Call)
+			if !ok {
+				return false
+			}
+			if _, isCtor := core.StatusCtorCode(call); isCtor {
+				continue
+			}
+			ci := core.InfoOf(&call.Call)
+			if ci.Is("fmt.Errorf") || ci.Is("errors.New") || errorMaker(ci.Static, depth+1) {
+				continue
+			}
+			return false
+		}
+	}
+	return true
 }
